@@ -68,6 +68,8 @@ struct Scn {
     conns: Vec<Conn>,
     fault: Fault,
     end_ms: u64,
+    /// Builder::tcp_capacity (None = default 64)
+    tcp_cap: Option<usize>,
 }
 
 #[derive(Clone, Debug)]
@@ -180,7 +182,7 @@ async fn connector(log: Log<Ev>, id: usize, c: Conn, s: Scn) {
 fn gen(seed: u64) -> Scn {
     let mut r = Rng::new(seed);
     let tick_ms = r.pick_copy(&[1u64, 1, 2, 5]);
-    let (min_ms, max_ms) = match r.below(4) {
+    let (mut min_ms, mut max_ms) = match r.below(4) {
         0 => (0, 0),
         1 => (2, 2),
         2 => (0, 9),
@@ -236,8 +238,33 @@ fn gen(seed: u64) -> Scn {
         }
         conns.push(Conn { host: r.usize_below(nhosts), target: Target::Listener, at: first_gap - r.range(2, 10).min(first_gap - 1), timeout: None, hold: max_ms + 4 * tick_ms + 5 });
     }
+    // "give-up flood" shape: the listener is parked in accept the whole time, more connectors
+    // than tcp_capacity give up one after the other before their request arrives (never more
+    // than one request pending), then a patient connector must still be accepted
+    let mut tcp_cap = None;
+    let mut flood = false;
+    if nhosts >= 2 && r.chance(0.08) {
+        flood = true;
+        let cap = r.pick_copy(&[3usize, 4, 5]);
+        tcp_cap = Some(cap);
+        let lat = r.pick_copy(&[6u64, 8, 12]);
+        (min_ms, max_ms) = (lat, lat);
+        let n = cap as u64 + r.range(1, 4);
+        conns.clear();
+        let mut at = 3;
+        for _ in 0..n {
+            let to = r.range(1, lat - 3);
+            conns.push(Conn { host: r.range(1, nhosts as u64 - 1) as usize, target: Target::Listener, at, timeout: Some(to), hold: 5 });
+            at += to + r.range(1, 3);
+        }
+        at += 2 * lat + 5;
+        conns.push(Conn { host: r.range(1, nhosts as u64 - 1) as usize, target: Target::Listener, at, timeout: None, hold: lat + 4 * tick_ms + 5 });
+        lifetimes = vec![Lifetime { bind_at: 0, loopback_bind: false, accepts: vec![0, 0, 0], drop_at: at + 4 * lat + 40 }];
+    }
     let horizon = horizon.max(lifetimes.last().map(|l| l.drop_at + 10).unwrap_or(0));
-    let fault = if nhosts >= 2 {
+    let fault = if flood {
+        Fault::None
+    } else if nhosts >= 2 {
         match r.below(7) {
             0 => Fault::Partition { host: r.range(1, nhosts as u64 - 1) as usize, at: r.range(0, horizon / tick_ms), len: r.range(1, 40), oneway: r.below(3) as u8 },
             1 => Fault::Hold { host: r.range(1, nhosts as u64 - 1) as usize, at: r.range(0, horizon / tick_ms), len: r.range(1, 30) },
@@ -259,6 +286,7 @@ fn gen(seed: u64) -> Scn {
         conns,
         fault,
         end_ms: horizon + 40 + 2 * max_ms,
+        tcp_cap,
     }
 }
 
@@ -311,6 +339,9 @@ fn scenario(s: Scn) -> ScenarioOut {
             .min_message_latency(Duration::from_millis(s.min_ms))
             .max_message_latency(Duration::from_millis(s.max_ms))
             .simulation_duration(Duration::from_secs(100_000));
+        if let Some(c) = s.tcp_cap {
+            b.tcp_capacity(c);
+        }
         if s.random_order {
             b.enable_random_order();
         }
@@ -424,6 +455,9 @@ fn scenario(s: Scn) -> ScenarioOut {
     if let Err(e) = &result {
         out.violate("run-failed", format!("C12|run-failed|{shape}"), format!("simulation ended with {e}"), desc.clone());
         return out;
+    }
+    if s.tcp_cap.is_some() {
+        out.count("give_up_flood_scenarios", 1);
     }
     // merge
     let mut items: Vec<Item> = hev.iter().map(|(q, st, e)| Item::H(*q, *st, e)).collect();
@@ -774,11 +808,11 @@ fn fin() -> Finish<'static> {
         level: "exploration",
         rule: "seeded scenarios: 1-3 listener lifetimes (wildcard or localhost bind, 0-5 accepts with gaps, drop, re-bind) on host h0, 2-6 connectors on 1-4 hosts (incl. the listener's host via its address and via 127.0.0.1) to the listener / a dead port / an unowned address, 40% with a timeout that cancels them, fixed and ranged latencies, partition (both / one-way) or hold around the handshake, IPv4/IPv6; the wire trace drives a queue model that fixes each connect's obligatory outcome; non-trivial = >=1 connect accepted and >=1 not accepted; distinct = digest of the API history",
         assumptions: vec![
-            "pending requests stay far below tcp_capacity (documented panic)".into(),
+            "live pending requests stay far below tcp_capacity (documented panic); in the give-up flood shape (tcp_capacity 3-5) never more than one request is pending while the listener is parked in accept".into(),
             "a connector whose timeout fires after its stream was accepted may see either outcome".into(),
             "prompt = within 2 steps of the deciding wire/API event".into(),
         ],
         min_distinct: 100,
-        required_counters: vec!["syns_in_flight_at_partition", "held_syns_at_partition", "connects_accepted", "refusals_observed", "cancelled_connectors_skipped_by_accept", "syns_dropped_by_partition", "nonces_matched", "final_count_samples"],
+        required_counters: vec!["syns_in_flight_at_partition", "held_syns_at_partition", "connects_accepted", "refusals_observed", "cancelled_connectors_skipped_by_accept", "syns_dropped_by_partition", "nonces_matched", "final_count_samples", "give_up_flood_scenarios"],
     }
 }
